@@ -22,7 +22,7 @@ def name_classes(lm):
     }
 
 
-def build(ctx, tier="quick", constraints=True, set_null=True, normalize_names=False, all_name_styles=False, style=None):
+def build(ctx, tier="quick", constraints=True, set_null=True, normalize_names=False, all_name_styles=False, style=None, final=None, final_modes=None):
     """style: None | 'plain' | 'dq' | 'bt' | 'br' - every identifier position of the statement written in that one style
     (all_name_styles explores the full product of styles over the positions instead)"""
     lm = ctx.lexer
@@ -212,7 +212,11 @@ def build(ctx, tier="quick", constraints=True, set_null=True, normalize_names=Fa
         s.eps(e, D)
         s.edge(D, P[","], Tag("sep", True), sep)
         s.edge(D, P[")"], Tag("end", True), end)
-    return s, make_oracle(s, normalize_names)
+    oracle = make_oracle(s, normalize_names)
+    if final:
+        from .final import FinalJudge
+        oracle = FinalJudge(ctx, oracle, rules=final, modes=final_modes, label=s.name, max_shapes=160 if tier == "thorough" else 40)
+    return s, oracle
 
 
 def fk_ref(s, lm, start, kind, k, P, sname, other_t, other_c, act, set_null, name_edge=None):
